@@ -1197,9 +1197,9 @@ def obligations(tier: str) -> List[Ob]:
     c2 = [cl[x] for x in ('string', 'list', 'path-act', 'path-result')]
     l2 = [ll[x] for x in ('string', 'list', 'path-prefix', 'path-rel', 'path-suffix')]
     x2 = [xl[x] for x in ('argument', 'integer', 'file-dst', 'dir-rel', 'copy-src', 'text')]
-    for c in c2:
+    for c in (c2 if thorough else c2[1:]):
         obs.append(_types_ob('K1:types:chain2:%s' % CONSTS[c][0], 2, [c], l2, x2[:4], 900))
-    x1 = [xl[x] for x in ('argument', 'integer', 'cd', 'file-dst', 'dir-rel', 'file-dst-norel-suffix', 'cd-head-suffix')]
+    x1 = [xl[x] for x in ('argument', 'integer', 'file-dst', 'dir-rel', 'file-dst-norel-suffix', 'cd-head-suffix')]
     for i, ls in enumerate(_chunks(list(range(N_WSTR_LINKS)), 6)):
         obs.append(_types_ob('K1:types:chain1:%d' % i, 1, c2, ls, x1, 900))
     if thorough:
